@@ -510,7 +510,20 @@ func runC14(r *Run) {
 		if f := r.fn(P, pkgProvider, "OperationProvider."+v.fn); f != nil {
 			why := "if validation stops at the first element or skips elements, a later malformed entry is accepted"
 			r.checkNoEarlySuccess(P+".elem.noearly."+v.fn, f, why)
-			r.checkEveryElementChecked(P+".elem.every."+v.fn, f, why, v.loops)
+			// the rejecting loops may be written in the function itself or in helpers of the package it calls
+			// (one instance per call site); the E6 rule is applied to each function that holds one
+			total, holders := r.validatingLoopInstances(f, 2)
+			if total < v.loops {
+				r.R.Bad(P+".elem.every."+v.fn, "E6 instance count", core.FuncName(f), r.where(f), why, fmt.Sprintf("%d validating loop instance(s) found (own + helpers), %d were confirmed by reading: a per-element check has been removed", total, v.loops))
+				continue
+			}
+			r.checkEveryElementChecked(P+".elem.every."+v.fn, f, why, 0)
+			for _, h := range holders {
+				if h != f {
+					r.checkNoEarlySuccess(P+".elem.noearly."+v.fn+"."+h.Name(), h, why)
+					r.checkEveryElementChecked(P+".elem.every."+v.fn+"."+h.Name(), h, why, 1)
+				}
+			}
 		}
 	}
 	if f := r.fn(P, pkgProvider, "OperationProvider.validateOperationReference"); f != nil {
@@ -948,4 +961,40 @@ func (r *Run) universalE11(P string, rels ...string) {
 	r.R.SetCount("E11 error-returning call sites examined", n)
 	r.R.Check(len(dropped) == 0 && n > 50, P+".universal.errors", "E11 (universal): no error returned by a callee is dropped in "+strings.Join(rels, ", "), "error discipline", "-",
 		"a dropped validation / storage / decoding error turns a rejection into an acceptance", fmt.Sprintf("%d error-returning call sites, all consumed", n), strings.Join(dropped, "; "))
+}
+
+// validatingLoopInstances counts the rejecting loops of f plus, per call site,
+// those of the same-package helpers it calls (depth-limited); holders are the
+// functions that contain at least one.
+func (r *Run) validatingLoopInstances(f *ssa.Function, depth int) (int, []*ssa.Function) {
+	n := len(r.validatingLoops(f))
+	var holders []*ssa.Function
+	if n > 0 {
+		holders = append(holders, f)
+	}
+	if depth <= 0 {
+		return n, holders
+	}
+	seen := map[*ssa.Function]bool{}
+	for _, b := range f.Blocks {
+		for _, ins := range b.Instrs {
+			c, ok := ins.(*ssa.Call)
+			if !ok {
+				continue
+			}
+			g := c.Common().StaticCallee()
+			if g == nil || g == f || g.Pkg != f.Pkg || len(g.Blocks) == 0 || !r.P.IsSubject(g) || !errResultOnly(g) {
+				continue
+			}
+			k, hs := r.validatingLoopInstances(g, depth-1)
+			n += k
+			for _, h := range hs {
+				if !seen[h] {
+					seen[h] = true
+					holders = append(holders, h)
+				}
+			}
+		}
+	}
+	return n, holders
 }
